@@ -243,9 +243,14 @@ def discharge_one(o, tier="quick"):
         # stage-1 attempt whose 'unsat' would also refute.
         try:
             o2 = type(o)(o.name, o.kind, o.prelude, o.pc, "false", o.line, o.func, "unsat", o.consts)
-            r, ms, full = run1("z3", qf_script(o2), t1)
+            s2txt = qf_script(o2)
+            r, ms, full = run1("z3", s2txt, t1)
             v.ms += ms
             v.detail["s2-z3"] = r
+            if r not in ("sat", "unsat"):
+                r, ms, full = run1("cvc5", s2txt, t2)
+                v.ms += ms
+                v.detail["s2-cvc5"] = r
             if r == "unsat":
                 v.status, v.solver, v.stage = "refuted", "z3", 2
                 return v
